@@ -1,6 +1,7 @@
 // One simulated run: world + network + broker + resolver + the real client behind the
 // facade, driven by a plan. The oracles inspect the finished Sim.
 #pragma once
+#include <set>
 #include <deque>
 #include <map>
 #include <memory>
@@ -95,6 +96,10 @@ struct Sim : ClientObserver {
     ns_t teardown_time_advance = 0;
     int resolver_pending_at_teardown = 0;
 
+    // coverage measure: abstract states (connection phase, outstanding operations by kind, in-flight vs Receive Maximum, pending
+    // transport operations and timers, ...) observed whenever virtual time is about to advance (i.e. at every quiescence)
+    std::set<uint64_t> abstract_states;
+    uint64_t abstract_state();
     void execute();                              // runs the whole plan incl. healed suffix and teardown
     void mark(MarkKind k, int op = -1, int64_t arg = 0);
 
